@@ -34,7 +34,7 @@ def stub_imports(stub_tree: ast.Module) -> Set[Tuple[str, str]]:
 
 
 def import_inventory(tree: ast.AST) -> List[Tuple[str, str, Optional[str], str]]:
-    """Every imported alias with its placement: (module, name, asname, where) where = 'module' | 'type_checking' |
+    """Every imported alias with its placement: (module, name, asname, where) where = 'module' | 'type_checking' | 'not_type_checking' (else branch) |
     'function:<name>' | 'other'."""
     out: List[Tuple[str, str, Optional[str], str]] = []
 
@@ -51,7 +51,7 @@ def import_inventory(tree: ast.AST) -> List[Tuple[str, str, Optional[str], str]]
                     out.append((a.name, "", a.asname, where))
             elif isinstance(n, ast.If) and is_tc(n.test):
                 visit(n.body, "type_checking" if where == "module" else where)
-                visit(n.orelse, where)
+                visit(n.orelse, "not_type_checking" if where == "module" else where)   # runtime only: a type checker never sees it
             elif isinstance(n, (ast.FunctionDef, ast.AsyncFunctionDef)):
                 visit(n.body, f"function:{n.name}")
             elif isinstance(n, ast.ClassDef):
